@@ -27,9 +27,10 @@ Adv == l' = l + 1
 
 Good == nbad' = nbad /\ UNCHANGED cl
 (* rule: which clause of the specification rejected the event *)
+DocOf(info) == IF "d" \in DOMAIN info THEN info.d + 1 ELSE 0
 Bad(rule, info) ==
   /\ PrintT("JUDGE " \o ToJson([l |-> l, cl |-> cl, rule |-> rule, info |-> info,
-                                 devs |-> SetSeq(Devs(cur))]))
+                                 devs |-> SetSeq(Devs(cur, DocOf(info)))]))
   /\ nbad' = nbad + 1 /\ UNCHANGED cl
 
 TrInit == RInit /\ l = 1 /\ cl = 0 /\ nbad = 0
@@ -42,7 +43,7 @@ TrLoad ==
   /\ IsEv("load") /\ Adv
   /\ IF phase = "idle" /\ e.out \in LoadOutcomes(cur)
      THEN Load(e.out) /\ Good
-     ELSE /\ Bad(IF e.out = "panic" THEN "load_panic" ELSE "load_outcome", e.out)
+     ELSE /\ Bad(IF e.out = "panic" THEN "load_panic" ELSE "load_outcome", [out |-> e.out])
           /\ phase' = IF e.out = "ok" THEN "loaded" ELSE "failed"
           /\ UNCHANGED <<cur, objs, den, prints>>
 
@@ -50,7 +51,7 @@ TrLoad ==
 TrLoad2 ==
   /\ IsEv("load2") /\ Adv /\ UNCHANGED rvars
   /\ IF (e.out = "ok") = (phase = "loaded") /\ e.out # "panic" THEN Good
-     ELSE Bad(IF e.out = "panic" THEN "load_panic" ELSE "load_paths_differ", e.out)
+     ELSE Bad(IF e.out = "panic" THEN "load_panic" ELSE "load_paths_differ", [out |-> e.out])
 
 TrOpt ==
   /\ IsEv("opt") /\ Adv
@@ -108,7 +109,7 @@ TrValidate ==
 
 TrSer ==
   /\ IsEv("ser") /\ Adv /\ UNCHANGED rvars
-  /\ IF e.out = "ok" THEN Good ELSE Bad(IF e.out = "panic" THEN "ser_panic" ELSE "ser_error", e.out)
+  /\ IF e.out = "ok" THEN Good ELSE Bad(IF e.out = "panic" THEN "ser_panic" ELSE "ser_error", [out |-> e.out])
 
 TrReload ==
   /\ IsEv("reload") /\ Adv
